@@ -127,4 +127,4 @@ RULE = RULE + RULE_FUZZ
 def parent_post(tier, seed, merged):
     """Coverage-guided byte-level fuzzing (atheris) of minify() under the execution monitor; skipped (and said so) if atheris is missing."""
     from ..fuzz import driver
-    return driver.run('C12', tier, seed, jobs_quick=8, jobs_thorough=16, runs_quick=4000, runs_thorough=250000)
+    return driver.run('C12', tier, seed, jobs_quick=8, jobs_thorough=16, runs_quick=4000, runs_thorough=100000)
